@@ -15,7 +15,7 @@ import (
 func init() {
 	register(&Def{
 		ID: "C16",
-		Explanation: "Structural necessary conditions of 'transforms are pure functional updates': (relink) content obtained by loading a link never flows into the parent's assembler as a node - it reaches the parent only as the link returned by LinkSystem.Store of the rebuilt block (same link prototype), and that store's error is tested before the link is assigned; (protocol) the rebuild loops keep to the assembler protocol on every path (key assigned => value assembled); (copyall) in the rebuild loops every path through an iteration assembles exactly one value (and, for maps, the key) unless it is the documented delete; (segmenteq) PathSegment values are compared with Equals, never with ==, outside package datamodel; (perchild) in the transforming walk the selector used for a child is the result of Explore asked about that child's own segment. " +
+		Explanation: "Structural necessary conditions of 'transforms are pure functional updates': (relink) content obtained by loading a link never flows into the parent's assembler as a node - it reaches the parent only as the link returned by LinkSystem.Store of the rebuilt block (same link prototype), and that store's error is tested before the link is assigned; (protocol) the rebuild loops keep to the assembler protocol on every path (key assigned => value assembled); (copyall) in the rebuild loops every path through an iteration assembles exactly one value (and, for maps, the key) unless it is the documented delete; (segmenteq) PathSegment values are compared with Equals, never with ==, outside package datamodel; (perchild) in the transforming walk the selector used for a child is the result of Explore asked about that child's own segment.  (createparents) create mode is entered only with the flag true or at the last step; (sentinel) a parsed list position cannot equal the internal append marker." +
 			"Equality of untouched entries and order as values, and input immutability (C11), are not decided here.",
 		NotCovered: []string{"equality and order of untouched entries as values", "input unchanged (covered structurally by C11)", "sequences of transforms"},
 		Trusted:    []string{"go/ssa, go/types"},
